@@ -43,6 +43,8 @@ void harness(void) {
     OBS("out=[%s]", cap);
     CHECK(contains(cap, "WHERE\n"), "the clause keyword is printed");
     CHECK(!contains(cap, "<unnamed>"), "the parser's sentinel for an unlabelled rule is never printed");
+    { int colons = 0, want = 0; for(i = 0; cap[i]; i++) if(cap[i] == ':') colons++; for(i = 0; i < NR; i++) want += labelled[i] & 1;
+      CHECK(colons == want, "exactly one label prefix per labelled rule: no rule is printed under a label it does not have"); }
     for(i = 0; i < NR; i++) {
         char lb[8]; lb[0] = names[i][0]; lb[1] = names[i][1]; lb[2] = names[i][2]; lb[3] = ':'; lb[4] = ' '; lb[5] = 0;
         CHECK(contains(cap, lb) == (labelled[i] & 1), "a label prefix is printed exactly for labelled rules");
